@@ -42,6 +42,12 @@ def run(res: C.Result):
         # masks and composite operations inside moves
         p["T"] = 3000.0
         r2 = random.Random(p["seed"] ^ 0xC07)
+        if r2.random() < 0.5 and p["max_cycles"] >= 2:
+            # forced moves (minimum_count) and intervals are part of the table that must come back from the file
+            m0 = r2.choice(p["moves"])
+            m0["minimum_count"] = 1
+            if r2.random() < 0.5:
+                r2.choice(p["moves"])["interval"] = 2
         if p["ensemble"] == "gc" and r2.random() < 0.6:
             p["accessible_volume_factor"] = r2.choice([0.25, 0.5, 2.0])
         if p["ensemble"] == "isotension" and r2.random() < 0.7:
@@ -81,6 +87,9 @@ def run(res: C.Result):
                 continue
             if rec["step_count_loaded"] != kk:
                 res.fail(f"restart:{drv}:step_count", f"file of step {kk} loads with step_count={rec['step_count_loaded']}", {"input": c, "k": kk})
+            if len(rec["got"]) != len(ref) - kk:
+                res.fail(f"restart:{drv}:steps-performed", f"{drv}: resumed from the file of step {kk} and asked for the remaining {len(ref) - kk} steps, the simulation performed {len(rec['got'])}",
+                         {"input": c, "k": kk, "observed": {"steps_performed": len(rec["got"]), "asked": len(ref) - kk}})
             for j, got in enumerate(rec["got"]):
                 want = ref[kk + j]
                 dist["resumed_steps_compared"] += 1
